@@ -26,9 +26,9 @@ from harness import core
 from harness.extract import units as EX
 
 MANIFEST_ENTRY = {
-    "text": "Lean theorems over the generator model prove, for every pair of Bernoulli outcome lists, duration, multi-emission flag and pre-simulation setting: start dates within [start - duration, end] (date_bounds), none before the period when pre-simulation emissions are off (no_presim_when_disabled), starts of a single-emission source more than `duration` apart (no_overlap_single), ids 0..n-1 unique (ids_unique), pending list popped in strictly increasing start order (generate_sorted). Over exact rationals and the unit tables regenerated from unit_converter.py on every run: gas_convert is linear (convert_linear), converts any SI-written rate back to the same g/s value for every Consistent table (unit_invariance, rate_invariance), capped rates never exceed the converted maximum (cap_respected, cap_respected_dist with the table-positivity obligation), all 56 unit pairs convert with a positive factor; the current table is proved NOT consistent (seconds per year 31 540 000, exact drift 7884/7885: known finding F10b) and proved consistent once that entry is 365*86400; seeds drawn by randint(0,255) collide for certain beyond 255 simulations and may collide before (seeds_collide_beyond_range, seeds_distinct_counterexample: known finding F10c); after any history of fresh runs, extensions and smaller runs on one generator folder simulation i holds the scenario of emis_preseed_val[i], existing pickles are untouched by an extension and distinct seeds give distinct scenarios (extension_seed_index, extension_preserves_existing, extension_distinct); C16_partial / C16_counterexample. Models are tied to the real Source.generate_emissions, gas_convert (run on exact rationals), EmissionsSource classes built by the real reader from generated emissions files in all 56 units, gen_seed_emis and initialize_emissions (single runs and multi-step folder histories with the applied seed recorded per simulation number) by differential correspondence on every run; each clause of the property is evaluated directly on the implementation outputs.",
+    "text": "Lean theorems over the generator model prove, for every pair of Bernoulli outcome lists, duration, multi-emission flag and pre-simulation setting: start dates within [start - duration, end] (date_bounds), none before the period when pre-simulation emissions are off (no_presim_when_disabled), starts of a single-emission source more than `duration` apart (no_overlap_single), ids 0..n-1 unique (ids_unique), pending list popped in strictly increasing start order (generate_sorted). Over exact rationals and the unit tables regenerated from unit_converter.py on every run: gas_convert is linear (convert_linear), converts any SI-written rate back to the same g/s value for every Consistent table (unit_invariance, rate_invariance), capped rates never exceed the converted maximum (cap_respected, cap_respected_dist with the table-positivity obligation), all 56 unit pairs convert with a positive factor; the current table is proved NOT consistent (seconds per year 31 540 000: known finding F10b) and what does hold of it is proved for every quantity: both rate sources return exactly 7884/7885 (1 for per-second units) times the capped physical rate, so SI units sharing a time unit agree exactly (si_drift_all, real_table_rates, same_increment_same_rates, per_second_rates_exact); mscf converts to exactly 353147/353100 of 1000 cubic feet (Units.mscf_drift, F10d); pound, cubic feet, liter, week, month, year are within 2e-6 of their independent legal/SI definitions (Units.non_si_entries_within_tolerance); the seed-index expressions of both generation loops of initialize_emissions are extracted from the AST and proved to be the simulation number (EmisSeed.seed_index_is_simulation_number), from which seeds drawn by randint(0,255) collide for certain beyond 255 simulations and may collide before (seeds_collide_beyond_range, seeds_distinct_counterexample: known finding F10c); after any history of fresh runs, extensions and smaller runs on one generator folder simulation i holds the scenario of emis_preseed_val[i], existing pickles are untouched by an extension and distinct seeds give distinct scenarios (extension_seed_index, extension_preserves_existing, extension_distinct); C16_partial / C16_counterexample. Models are tied to the real Source.generate_emissions, gas_convert (run on exact rationals), EmissionsSource classes built by the real reader from generated emissions files in all 56 units, gen_seed_emis and initialize_emissions (single runs and multi-step folder histories with the applied seed recorded per simulation number) by differential correspondence on every run; each clause of the property is evaluated directly on the implementation outputs.",
     "design_ref": "DESIGN.md 5.16",
-    "note": "trusted: Lean kernel + propext/Classical.choice/Quot.sound; hand-written models tied by sampled correspondence; the ast extractor of the unit tables (cross-checked against the imported module on every run); float results of the rate-source classes are compared with the exact model inside a rounding envelope of 2^-40 relative (the function itself is compared exactly on rationals); non-SI units (pound, cubic feet, week, month, year) are taken as defined by the table, mscf as 1000 cubic feet; distributional correctness of the draws and of scipy/numpy is outside this check; 'different scenarios' is checked as distinct seeds + observed scenario inequality on non-degenerate configurations",
+    "note": "trusted: Lean kernel + propext/Classical.choice/Quot.sound; hand-written models tied by sampled correspondence; the ast extractor of the unit tables (cross-checked against the imported module on every run); float results of the rate-source classes are compared with the exact model inside a rounding envelope of 2^-40 relative (the function itself is compared exactly on rationals); non-SI units (pound, cubic feet, week, month, year) are written as defined by the table, whose entries are bounded against independent definitions at 2e-6 (Lean obligation + harness check), mscf as 1000 cubic feet; a unit deviation is filed under a known finding only when its ratio equals the proved drift within 1e-9; the injectivity seed -> scenario assumed by distinct_scenarios_partial / extension_distinct is measured (evidence: injectivity_assumption) and fails by construction for production rate 0; distributional correctness of the draws and of scipy/numpy is outside this check; 'different scenarios' is checked as distinct seeds + observed scenario inequality on non-degenerate configurations",
     "technique": "Lean 4 proofs over an executable generator / converter model + tables regenerated from source + differential correspondence with the real classes + direct oracle",
 }
 
@@ -863,7 +863,7 @@ def run(ctx):
     if drift and ctx.quick:
         # DESIGN 2.3 step 1: deeper correspondence when the modelled code changed (bounded so that the
         # quick tier stays a quick tier)
-        ctx.pick = lambda quick, thorough: min(thorough, 3 * quick)   # noqa: E731
+        ctx.pick = lambda quick, thorough: min(thorough, 2 * quick)   # noqa: E731
     core.lean_stage(ctx, MODULE, FILE, drivers=["drv_gen"])
     from harness.adapters import gen as G
     M = Model(ctx)
